@@ -295,6 +295,121 @@ theorem max_drawdown_is_min (l : List K) (m : K) (h : maxDrawdown l = some m) :
         · exact h2
         · exact h3 d hd'
 
+/-! ### quantiles (value at risk) and expected shortfall -/
+
+theorem insertSorted_perm (x : K) (l : List K) : (insertSorted x l).Perm (x :: l) := by
+  induction l with
+  | nil => exact List.Perm.refl _
+  | cons y ys ih =>
+      unfold insertSorted
+      by_cases h : x ≤ y
+      · simp only [h, if_true]; exact List.Perm.refl _
+      · simp only [h, if_false]
+        exact (List.Perm.cons y ih).trans (List.Perm.swap x y ys)
+
+/-- the sorted values are a rearrangement of the returns: nothing dropped, nothing duplicated -/
+theorem sortL_perm (l : List K) : (sortL l).Perm l := by
+  induction l with
+  | nil => exact List.Perm.refl _
+  | cons x xs ih => exact (insertSorted_perm x (sortL xs)).trans (List.Perm.cons x ih)
+
+theorem insertSorted_sorted (x : K) (l : List K) (h : l.Pairwise (· ≤ ·)) :
+    (insertSorted x l).Pairwise (· ≤ ·) := by
+  induction l with
+  | nil => simp [insertSorted]
+  | cons y ys ih =>
+      unfold insertSorted
+      by_cases hxy : x ≤ y
+      · simp only [hxy, if_true]
+        refine List.Pairwise.cons ?_ h
+        intro z hz
+        rcases List.mem_cons.mp hz with rfl | hz'
+        · exact hxy
+        · exact le_trans hxy (List.rel_of_pairwise_cons h hz')
+      · simp only [hxy, if_false]
+        refine List.Pairwise.cons ?_ (ih (List.Pairwise.of_cons h))
+        intro z hz
+        rcases List.mem_cons.mp ((insertSorted_perm x ys).mem_iff.mp hz) with rfl | hz'
+        · exact le_of_lt (not_le.mp hxy)
+        · exact List.rel_of_pairwise_cons h hz'
+
+/-- ... in ascending order -/
+theorem sortL_sorted (l : List K) : (sortL l).Pairwise (· ≤ ·) := by
+  induction l with
+  | nil => simp [sortL]
+  | cons x xs ih => exact insertSorted_sorted x _ ih
+
+theorem sortL_length (l : List K) : (sortL l).length = l.length := (sortL_perm l).length_eq
+
+/-- **The quantile is a linear interpolation between two neighbouring order statistics**, hence lies between
+    them: with `fl ≤ (n-1)·q ≤ fl + 1` the reported value `v` satisfies `s[fl] ≤ v ≤ s[fl+1]`, both of which are
+    observed returns. -/
+theorem quantile_bracket (xs : List K) (q : K) (fl : Nat) (a b v : K)
+    (ha : (sortL xs)[fl]? = some a) (hb : (sortL xs)[fl + 1]? = some b)
+    (hlo : (fl : K) ≤ ((xs.length - 1 : Nat) : K) * q) (hhi : ((xs.length - 1 : Nat) : K) * q ≤ (fl : K) + 1)
+    (h : quantileAt xs q fl = some v) :
+    a ≤ v ∧ v ≤ b ∧ a ∈ xs ∧ b ∈ xs := by
+  unfold quantileAt at h
+  simp only [ha, hb, Option.some.injEq] at h
+  have hab : a ≤ b := by
+    have hs := sortL_sorted xs
+    obtain ⟨h1, e1⟩ := List.getElem?_eq_some_iff.mp ha
+    obtain ⟨h2, e2⟩ := List.getElem?_eq_some_iff.mp hb
+    rw [← e1, ← e2]
+    exact List.pairwise_iff_getElem.mp hs fl (fl + 1) h1 h2 (Nat.lt_succ_self fl)
+  have hd : 0 ≤ b - a := sub_nonneg.mpr hab
+  set f := ((xs.length - 1 : Nat) : K) * q - (fl : K) with hf
+  have f0 : 0 ≤ f := by rw [hf]; linarith
+  have f1 : f ≤ 1 := by rw [hf]; linarith
+  refine ⟨?_, ?_, ?_, ?_⟩
+  · rw [← h]; nlinarith [mul_nonneg f0 hd]
+  · rw [← h]; nlinarith [mul_nonneg (sub_nonneg.mpr f1) hd]
+  · exact (sortL_perm xs).mem_iff.mp (List.mem_of_getElem? ha)
+  · exact (sortL_perm xs).mem_iff.mp (List.mem_of_getElem? hb)
+
+/-- at the top order statistic (`q = 1`) the quantile is that statistic itself -/
+theorem quantile_top (xs : List K) (q : K) (fl : Nat) (a : K)
+    (ha : (sortL xs)[fl]? = some a) (hb : (sortL xs)[fl + 1]? = none) :
+    quantileAt xs q fl = some a := by
+  unfold quantileAt; simp only [ha, hb]
+
+theorem sumL_le_of_all_le (l : List K) (c : K) (h : ∀ x ∈ l, x ≤ c) : sumL l ≤ (l.length : K) * c := by
+  induction l with
+  | nil => simp [sumL]
+  | cons x xs ih =>
+      have h1 := h x List.mem_cons_self
+      have h2 := ih (fun y hy => h y (List.mem_cons_of_mem _ hy))
+      simp only [sumL, List.length_cons, Nat.cast_succ]
+      linarith
+
+/-- **Expected shortfall is no better than the value at risk**: the mean of the returns not above `var` is
+    itself not above `var` (whenever there is at least one such return — the quantile itself always is one). -/
+theorem expected_shortfall_le_var (rets : List K) (var : K) (hne : ∃ r ∈ rets, r ≤ var) :
+    expectedShortfall rets var ≤ var := by
+  unfold expectedShortfall mean
+  set t := rets.filter (fun r => decide (r ≤ var)) with ht
+  have hall : ∀ x ∈ t, x ≤ var := by
+    intro x hx; rw [ht] at hx; simpa using (List.mem_filter.mp hx).2
+  have hlen : 0 < (t.length : K) := by
+    obtain ⟨r, hr, hrv⟩ := hne
+    have : r ∈ t := by rw [ht]; exact List.mem_filter.mpr ⟨hr, by simpa using hrv⟩
+    exact Nat.cast_pos.mpr (List.length_pos_of_mem this)
+  rw [div_le_iff₀ hlen]
+  have := sumL_le_of_all_le t var hall
+  linarith [mul_comm (t.length : K) var]
+
+/-- ... and is a mean over *exactly* the returns at or below the threshold: scaling the levels leaves the
+    selected returns unchanged (`returns_scale`), so the shortfall is scale-invariant too -/
+theorem expected_shortfall_only_tail (rets : List K) (var : K) :
+    ∀ r ∈ rets.filter (fun r => decide (r ≤ var)), r ∈ rets ∧ r ≤ var := by
+  intro r hr
+  obtain ⟨h1, h2⟩ := List.mem_filter.mp hr
+  exact ⟨h1, by simpa using h2⟩
+
+/-- premises satisfiable: five returns, the 5 % quantile sits between the two lowest -/
+example : quantileAt ([3, -2, 1, -1, 2] : List ℚ) (1/20) 0 = some (-2 + (4 * (1/20) - 0) * (-1 - -2)) := by
+  decide +kernel
+
 end TV.Met
 
 /-! ### CAGR over the reals -/
